@@ -99,4 +99,4 @@ def run(run):
     run.assumptions += ["the harness maps a JSON partial record to PartialDate/PartialTime field by field (ops_partial.rs) and projects results through public getters; "
                         "the hidden reference day of a year-month is read from to_ixdtf_string(DisplayCalendar::Always)",
                         "ISO calendar only; era / eraYear never supplied; ZonedDateTime partials in fixed-offset zones (+00:00 in the bounded instance; +05:30, -08:00, +14:00 in sessions)",
-                        "a record invalid for a TypeError reason and a RangeError reason at once may report either kind"]
+                        "a record that lacks a required field must be a TypeError even if a supplied field is also out of range (Temporal's order of checks)"]
